@@ -112,6 +112,10 @@ def oracle_states(evs, whitelist=None):
                 return "component %s announced %s twice in a row" % (key, st)
             if whitelist is not None and (prev, st) not in whitelist:
                 return "component %s announced the undocumented transition %s -> %s" % (key, prev, st)
+            if prev == "CONNECTED" and st == "CONNECTING":
+                # documented for one cause only ("a tcp socket of a connected pair is disconnected, in conn_check_prune_socket()");
+                # the simulator has UDP sockets only and none of them is ever removed while the component lives
+                return "component %s went CONNECTED -> CONNECTING although no socket of a connected pair was lost (the only documented cause)" % (key,)
             if st in ("CONNECTED", "READY"):
                 m = [x for x in e.f if x.startswith("selected=")]
                 if m and m[0] != "selected=1":
@@ -179,8 +183,12 @@ def final_selected(evs, agent, comp="1"):
     return r
 
 
-def oracle_convergence(evs, ncomp=1, after=None):
-    """C01 end condition: both READY on mirrored pairs, exactly one controlling role in the checks sent once quiet."""
+def oracle_convergence(evs, ncomp=1, after=None, nat=None):
+    """C01 end condition: both READY on mirrored pairs, exactly one controlling role in the checks sent once quiet.
+    nat: private ip -> public ip; an address is compared as the other side sees it."""
+    def pub(a):
+        ip, port = a.rsplit(":", 1)
+        return "%s:%s" % ((nat or {}).get(ip, ip), port)
     for c in range(1, ncomp + 1):
         a, b = final_state(evs, 0, str(c)), final_state(evs, 1, str(c))
         if a != "READY" or b != "READY":
@@ -188,7 +196,7 @@ def oracle_convergence(evs, ncomp=1, after=None):
         sa, sb = final_selected(evs, 0, str(c)), final_selected(evs, 1, str(c))
         if not sa or not sb or sa[0] != "=1" or sb[0] != "=1":
             return "no selected pair reported for component %d" % c
-        if sa[1] != sb[2] or sa[2] != sb[1]:
+        if pub(sa[1]) != pub(sb[2]) or pub(sa[2]) != pub(sb[1]):
             return "selected pairs are not mirror images for component %d: A %s>%s, B %s>%s" % (c, sa[1], sa[2], sb[1], sb[2])
     # roles: digest lines at the end
     ctl = {}
@@ -203,6 +211,7 @@ def oracle_convergence(evs, ncomp=1, after=None):
     for e in evs:
         if e.kind == "pkt" and e.t > tmax - 3000 and "stun" in e.f and "c0" in e.f:
             src = e.f[0].rsplit(":", 1)[0]
+            src = {v: k for k, v in (nat or {}).items()}.get(src, src)
             for x in e.f:
                 if x.startswith("ctl=") and x != "ctl=-1":
                     roles.setdefault(src, set()).add(x)
@@ -262,16 +271,29 @@ def gen_convergence(rng, i, kind="conv"):
         ta, tb = rng.randrange(1 << 62), rng.randrange(1 << 62)
         ops[3:3] = ["tie,0,%d" % ta, "tie,1,%d" % (tb if tb != ta else ta + 1)]
     drop = rng.choice([0, 0, 0.1, 0.25, 0.4])
+    # NAT (1:1, port preserving, full cone): one side behind it (the other learns a peer-reflexive candidate from the first check), or both
+    # sides with a STUN server giving them server-reflexive candidates; the private addresses are then unroutable from outside
+    natmap = {}
+    r = rng.random()
+    if kind == "conv" and r < 0.3:
+        sides = (0,) if r < 0.1 else (1,) if r < 0.2 else (0, 1)
+        for sd in sides:
+            for ip in ips[sd]:
+                pub = "198.51.%s.%s" % tuple(ip.split(".")[2:])
+                natmap[ip] = pub
+                ops.append("nat,%s,%s" % (ip, pub))
+        if len(sides) == 2:
+            ops += ["server,10.9.0.1,3478,ok", "stun,0,10.9.0.1,3478", "stun,1,10.9.0.1,3478"]
     ops.append("net,%s,%s,%d,%d,%d" % (drop, rng.choice([0, 0, 0.1, 0.3]), rng.choice([1, 5, 20]), rng.choice([1, 30, 120, 200]), rng.choice([2, 3])))   # one-way delay <= 200 ms: a round trip always beats the shortest
     # per-attempt timeout (500 ms), so an attempt the network delivers is not lost to the timer instead
-    ops += ["gather,0,1", "gather,1,1", "run,%d" % rng.choice([0, 10, 100])]
-    ops += signalling(rng, ncomp, trickle=trickle and rng.random() < 0.7)
+    ops += ["gather,0,1", "gather,1,1", "run,%d" % (rng.choice([0, 10, 100]) if len(natmap) < len(ips[0]) + len(ips[1]) else 700)]
+    ops += signalling(rng, ncomp, trickle=trickle and rng.random() < 0.7 and not natmap)
     ops += ["run,%d" % rng.choice([4000, 8000, 15000]), "digest", "run,6000", "digest"]
     # data both ways once connected
     for _ in range(rng.randrange(0, 4)):
         ops.append("send,%d,1,%d,%d,%d" % (rng.randrange(2), rng.randrange(1, ncomp + 1), rng.choice([1, 100, 1200, 1472, 9000, 65535]), rng.randrange(250)))
     ops += ["run,3000"] + final_queries(ncomp)
-    return "%s%d %s" % (kind, i, " ".join(ops)), {"kind": kind, "ncomp": ncomp}
+    return "%s%d %s" % (kind, i, " ".join(ops)), {"kind": kind, "ncomp": ncomp, "nat": natmap}
 
 
 def gen_lifecycle(rng, i):
@@ -851,7 +873,8 @@ def gen_api_program(rng, i):
         elif r < 0.18: ops.append("gather,%d,%d" % (a, sid()))
         elif r < 0.24: ops.append("creds,%d,%d,%d" % (a, 1 - a, rng.choice([1, 1, 2])))
         elif r < 0.32: ops.append("cands,%d,%d,%d,%d" % (a, 1 - a, rng.choice([1, 1, 2]), rng.choice([1, 1, 2])))
-        elif r < 0.36: ops += ["sdpgen,%d" % a, "sdpparse,%d,%d" % (1 - a, a)]
+        elif r < 0.33: ops += ["sdpgen,%d" % a, "sdpparse,%d,%d" % (1 - a, a)]
+        elif r < 0.36: ops += ["sdpgen,%d" % a, "sdpbad,%d,%d,%d" % (1 - a, a, rng.randrange(6))]
         elif r < 0.40 and servers: ops.append("relay,%d,%d,%d,10.9.1.1,3478" % (a, sid(), cid()))
         elif r < 0.45: ops.append(rng.choice(["restart,%d" % a, "restart_stream,%d,%d" % (a, sid())]))
         elif r < 0.55: ops.append("send,%d,%d,%d,%d,%d" % (a, sid(), cid(), rng.choice([1, 100, 1472, 20000]), rng.randrange(200)))
